@@ -405,6 +405,45 @@ impl System for WinSys {
 		if let Err(f) = observe(&n.w, &n.m, full, phase, "") {
 			return Step::Violation(f);
 		}
+		// copies: clone(), and clone_from() into targets of the SAME capacity at other rotation phases and of
+		// other capacities (a hand-written clone_from that re-uses the target's buffer must take over the cursor too)
+		{
+			if cap <= 16 || phase % 5 == 0 {
+				let c = n.w.clone();
+				if let Err(f) = observe(&c, &n.m, false, phase, "copy:clone:") {
+					return Step::Violation(f);
+				}
+			}
+			// every target for small capacities; for the larger ones two same-capacity targets at every 5th phase
+			let targets: Vec<(usize, usize)> = if cap <= 16 {
+				vec![(cap, 0), (cap, 1), (cap, cap / 2), (cap, cap.saturating_sub(1)), (cap + 1, 1), (cap.saturating_sub(1), 0), (0, 0)]
+			} else if phase % 5 == 0 || phase + 2 >= 2 * cap {
+				vec![(cap, 1), (cap, cap / 2)]
+			} else {
+				vec![]
+			};
+			for (tc, pushes) in targets {
+				if tc > PeriodType::MAX as usize - 1 {
+					continue;
+				}
+				let mut t: Window<u32> = Window::new(tc as P, 9_000_000);
+				for j in 0..pushes.min(if tc == 0 { 0 } else { usize::MAX }) {
+					t.push(9_000_001 + j as u32);
+				}
+				t.clone_from(&n.w);
+				if let Err(f) = observe(&t, &n.m, false, phase, "copy:clone_from:") {
+					return Step::Violation(f);
+				}
+				// and the copy goes on like the original
+				if cap > 0 {
+					let mut o = n.w.clone();
+					let (a1, a2) = (o.push(77), t.push(77));
+					if a1 != a2 || o.iter().collect::<Vec<_>>() != t.iter().collect::<Vec<_>>() {
+						return Step::Violation(Failure::new("copy:clone_from:push", format!("after clone_from into a window of capacity {tc} ({pushes} pushes): push returned {a2} (original {a1}), contents {:?} vs {:?}", t.iter().collect::<Vec<_>>(), o.iter().collect::<Vec<_>>())));
+					}
+				}
+			}
+		}
 		// rebuilds
 		match serialized_index(&n.w) {
 			Err(e) => return Step::Violation(Failure::new("serialize/error", e)),
